@@ -13,13 +13,13 @@ def run(facts, tier):
     exc = json.load(open(os.path.join(VERIF, "spec", "a1_exceptions.json")))
     exc = {k: v for k, v in exc.items() if not k.startswith("_")}
     obs, rules = [], []
-    o, armed = c11_rules.a1_obligations(facts.raw(), exc)
+    o, armed = c11_rules.a1_obligations(facts.light(), exc)
     obs += o
     n = len([x for x in o if x["status"] != "info"])
     rules.append({"rule": "a1 bounded cursor", "instances": n, "min": 230, "functions": armed,
                   "text": "every read from the caller's buffer (copy_from_mem, memcpy, index, delegated capacity) is covered on every path by an established size guarantee"})
     rules.append({"rule": "a1 armed readers", "instances": len(armed), "min": 34, "text": "byte-level readers analysed"})
-    o, armed2 = c11_rules.a2_obligations(facts.raw())
+    o, armed2 = c11_rules.a2_obligations(facts.light())
     obs += o
     rules.append({"rule": "a2 stream final check", "instances": len(o), "min": 31, "functions": armed2,
                   "text": "every stream reader tests the stream state after its last read on every returning path"})
